@@ -8,6 +8,7 @@ pub type F83 = Bvf<u8, 3>;
 pub type F162 = Bvf<u16, 2>;
 pub type F641 = Bvf<u64, 1>;
 pub type F642 = Bvf<u64, 2>;
+pub type F1281 = Bvf<u128, 1>;
 
 
 /// reference-model arithmetic at a given machine width (u32 for the small Kani types, u128 for the 128-bit ones)
@@ -79,6 +80,10 @@ binops!(m128, and__f82_bvd, or__f82_bvd, xor__f82_bvd, add__f82_bvd, sub__f82_bv
 binops!(m128, and__bvd_bvd, or__bvd_bvd, xor__bvd_bvd, add__bvd_bvd, sub__bvd_bvd, mul__bvd_bvd, cmp__bvd_bvd, Bvd, Bvd);
 binops!(m128, and__bvd_f82, or__bvd_f82, xor__bvd_f82, add__bvd_f82, sub__bvd_f82, mul__bvd_f82, cmp__bvd_f82, Bvd, F82);
 binops!(m128, and__bvd_f642, or__bvd_f642, xor__bvd_f642, add__bvd_f642, sub__bvd_f642, mul__bvd_f642, cmp__bvd_f642, Bvd, F642);
+binops!(m128, and__bvd_f1281, or__bvd_f1281, xor__bvd_f1281, add__bvd_f1281, sub__bvd_f1281, mul__bvd_f1281, cmp__bvd_f1281, Bvd, F1281);
+binops!(m128, and__f1281_bvd, or__f1281_bvd, xor__f1281_bvd, add__f1281_bvd, sub__f1281_bvd, mul__f1281_bvd, cmp__f1281_bvd, F1281, Bvd);
+binops!(m128, and__f1281_f642, or__f1281_f642, xor__f1281_f642, add__f1281_f642, sub__f1281_f642, mul__f1281_f642, cmp__f1281_f642, F1281, F642);
+binops!(m128, and__bv_f1281, or__bv_f1281, xor__bv_f1281, add__bv_f1281, sub__bv_f1281, mul__bv_f1281, cmp__bv_f1281, Bv, F1281);
 binops!(m128, and__bv_bv, or__bv_bv, xor__bv_bv, add__bv_bv, sub__bv_bv, mul__bv_bv, cmp__bv_bv, Bv, Bv);
 
 /// shift amounts: small, small + 2^32, small + 2^64 (does not fit usize), or arbitrary
@@ -225,6 +230,7 @@ unops!(m32, shl__f82, shr__f82, shlin__f82, shrin__f82, rot__f82, cnt__f82, edit
 unops!(m32, shl__f83, shr__f83, shlin__f83, shrin__f83, rot__f83, cnt__f83, edit__f83, slice__f83, not__f83, F83);
 unops!(m32, shl__f162, shr__f162, shlin__f162, shrin__f162, rot__f162, cnt__f162, edit__f162, slice__f162, not__f162, F162);
 unops!(m128, shl__f642, shr__f642, shlin__f642, shrin__f642, rot__f642, cnt__f642, edit__f642, slice__f642, not__f642, F642);
+unops!(m128, shl__f1281, shr__f1281, shlin__f1281, shrin__f1281, rot__f1281, cnt__f1281, edit__f1281, slice__f1281, not__f1281, F1281);
 unops!(m128, shl__bvd, shr__bvd, shlin__bvd, shrin__bvd, rot__bvd, cnt__bvd, edit__bvd, slice__bvd, not__bvd, Bvd);
 unops!(m128, shl__bv, shr__bv, shlin__bv, shrin__bv, rot__bv, cnt__bv, edit__bv, slice__bv, not__bv, Bv);
 
